@@ -320,8 +320,9 @@ def g_cobs(o):
 
 
 def g_ccase(case, obs):
-    return "(mkCCase %s %s %s %s %s %s)" % (
+    return "(mkCCase %s %s %s %s %s %s %s)" % (
         G.g_list([G.g_val(v) for v in case["fields"]]), g_table(case["classes"]), g_table(case["handlers"]),
+        K.g_nat(case.get("depth", 0)),
         G.g_list([g_op(o) for o in case["pre"]]),
         G.g_list(["(%s, %s)" % (G.g_bool(on_copy), g_op(o)) for on_copy, o in case["ops"]]),
         G.g_list(["(%s, %s)" % (g_cobs(a), g_cobs(b)) for a, b in obs["steps"]]))
